@@ -272,6 +272,21 @@ fn random_history(prop: &str, coin: &str, n_tx: usize, reuse: bool, rng: &mut Rn
                 let tx = create_tx(&mut hist, coin, &keys, 1, rng, ins, true);
                 hist.add(tx, true, coin);
             }
+            10 if rng.chance(1, 3) => {
+                // two DIFFERENT transactions whose txids share their first (or last) 8 bytes, both paying
+                // output 0 to the same address: distinct outpoints for the program, one entry for any map key
+                // built from a truncated txid
+                let (a, b) = if rng.coin() { crate::collide::HEAD_PAIR } else { crate::collide::TAIL_PAIR };
+                for n in [a, b] {
+                    let tx = crate::collide::collision_tx(n);
+                    if !hist.all_txs.contains(&tx) {
+                        hist.add(tx, true, coin);
+                        if rng.coin() {
+                            hist.new_block();
+                        }
+                    }
+                }
+            }
             10 => {
                 // byte-identical transaction re-included (same txid → replacement)
                 if !hist.all_txs.is_empty() {
@@ -402,6 +417,9 @@ fn probes(scn: &Scenario, m: &Model, st: &mut Stats) {
             if seen_txids.contains_key(&id) {
                 st.probe("duplicate_txid");
             }
+            if seen_txids.keys().any(|k| *k != id && (k[..8] == id[..8] || k[24..] == id[24..])) {
+                st.probe("txids_sharing_8_bytes");
+            }
             seen_txids.insert(id.clone(), bi);
             created.insert(id, bi);
             for o in &t.outputs {
@@ -428,7 +446,7 @@ impl Prop for C07 {
         small + if tier == Tier::Quick { 700 } else { 8000 }
     }
     fn required_probes(&self, _tier: Tier) -> Vec<&'static str> {
-        vec!["spend_in_creating_block", "duplicate_txid", "spend_unknown_outpoint", "tx_with_over_256_outputs", "spent_index_past_255", "zero_value_output"]
+        vec!["spend_in_creating_block", "duplicate_txid", "spend_unknown_outpoint", "tx_with_over_256_outputs", "spent_index_past_255", "zero_value_output", "txids_sharing_8_bytes"]
     }
     fn explore(&self, item: u64, rng: &mut Rng, tier: Tier, h: &mut Harness) -> Result<(), String> {
         let maxk = if tier == Tier::Quick { 3 } else { 4 };
